@@ -23,90 +23,9 @@ ENUMERATION = 'join name-map stores and row construction, key functions, filter/
 
 
 def check_join(chk):
-    mod = chk.repo.module('data')
-    func = mod.func('join_data', 'C19.J')
-    # name maps
-    defs = {n.targets[0].id: n for n in walk_no_nested(func) if isinstance(n, ast.Assign) and isinstance(n.targets[0], ast.Name) and isinstance(n.value, ast.Dict) and not n.value.keys}
-    stores = [n for n in walk_no_nested(func) if isinstance(n, ast.Assign) and isinstance(n.targets[0], ast.Subscript) and isinstance(n.targets[0].value, ast.Name)
-              and n.targets[0].value.id in defs]
-    # left map: filled from rows of the first parameter
-    params = [a.arg for a in func.args.args]
-    left_rows, right_rows = params[0], params[1]
-    left_map = right_map = None
-    for s in stores:
-        loop = s
-        while loop is not None and not (isinstance(loop, ast.For) and norm(loop.iter) in (left_rows, right_rows)):
-            loop = getattr(loop, '_parent', None)
-        if loop is not None and norm(loop.iter) == left_rows:
-            left_map = s.targets[0].value.id
-    # right map: the one used to key the stores into the joined row
-    join_stores = [n for n in walk_no_nested(func) if isinstance(n, ast.Assign) and isinstance(n.targets[0], ast.Subscript) and isinstance(n.targets[0].slice, ast.Subscript)
-                   and isinstance(n.targets[0].slice.value, ast.Name) and n.targets[0].slice.value.id in defs]
-    if not left_map or len(join_stores) != 1:
-        raise Unrecognised('C19.J', 'left name map / joined-row store not identified', mod.rel)
-    right_map = join_stores[0].targets[0].slice.value.id
-    join_row = norm(join_stores[0].targets[0].value)
-    # every store into right_map is under `not in left_map` knowledge
-    rstores = [s for s in stores if s.targets[0].value.id == right_map]
-    if not rstores:
-        raise Unrecognised('C19.J', f'no stores into {right_map}', mod.rel)
-    for s in rstores:
-        val = norm(s.value)
-        key = norm(s.targets[0].slice)
-        ok = False
-        why = ''
-        cur = s
-        par = getattr(s, '_parent', None)
-        # (a) in the if-branch of `val not in left_map`
-        while par is not None and par is not func:
-            if isinstance(par, ast.If):
-                if any(cur is x for x in par.body) and norm(par.test) == f'{val} not in {left_map}':
-                    ok = True
-                    why = f'under `{val} not in {left_map}`'
-            cur = par
-            par = getattr(par, '_parent', None)
-        # (b) after a while loop whose test includes `val in left_map`
-        if not ok:
-            blk = getattr(s, '_parent', None)
-            body = blk.orelse if isinstance(blk, ast.If) and any(s is x for x in blk.orelse) else (blk.body if hasattr(blk, 'body') else [])
-            if s in body:
-                ix = body.index(s)
-                prev = [x for x in body[:ix] if isinstance(x, ast.While)]
-                if prev:
-                    conds = [norm(c) for c in (prev[-1].test.values if isinstance(prev[-1].test, ast.BoolOp) and isinstance(prev[-1].test.op, ast.Or) else [prev[-1].test])]
-                    if f'{val} in {left_map}' in conds:
-                        ok = True
-                        why = f'after the renaming loop that runs while `{val} in {left_map}`'
-                    else:
-                        wrong = [c for c in conds if c.startswith(f'{val} in ')]
-                        chk.bad('C19.J', mod, 'join_data', norm(prev[-1].test)[:120],
-                                f'the renaming loop for colliding right fields tests {wrong} but not `{val} in {left_map}` (the map of LEFT FIELD NAMES): a generated name such as a2 that '
-                                f'already exists as a left field is accepted, and the joined row overwrites that left field', node=prev[-1])
-                        continue
-        if ok:
-            chk.ok('C19.J', f'{norm(s)[:60]} {why}: a right field never maps onto a left field name')
-        else:
-            chk.bad('C19.J', mod, 'join_data', norm(s)[:80], f'the joined name {val} of a right field is not known to be absent from the left field names: a left field can be overwritten', node=s)
-    # joined row = copy of the left row
-    jr_defs = [n for n in walk_no_nested(func) if isinstance(n, ast.Assign) and norm(n.targets[0]) == join_row]
-    if len(jr_defs) == 1 and isinstance(jr_defs[0].value, ast.Call) and call_name(jr_defs[0].value) == 'dict' and len(jr_defs[0].value.args) == 1:
-        chk.ok('C19.J', f'joined row starts as a copy of the left row ({norm(jr_defs[0])}) and receives right values only under {right_map}[...] keys')
-    else:
-        chk.bad('C19.J', mod, 'join_data', norm(jr_defs[0])[:80] if jr_defs else 'no joined-row construction', 'each joined row must be a fresh copy of the left row', node=func)
-    # key functions
-    keys = [n for n in walk_no_nested(func) if isinstance(n, ast.Assign) and isinstance(n.targets[0], ast.Name) and n.targets[0].id.endswith('_key')]
-    forms = set()
-    for k in keys:
-        v = k.value
-        if isinstance(v, ast.Call) and call_name(v) == 'value_json' and isinstance(v.args[0], ast.Call) and len(v.args[0].args) == 3:
-            inner = v.args[0]
-            forms.add((call_name(v), norm(inner.func), norm(inner.args[1])))
-        else:
-            forms.add((norm(v)[:60],))
-    if len(keys) == 2 and len(forms) == 1 and len(next(iter(forms))) == 3:
-        chk.ok('C19.J', f'bucket and probe keys use the same key function: value_json({next(iter(forms))[1]}(expr, {next(iter(forms))[2]}, row))')
-    else:
-        chk.bad('C19.J', mod, 'join_data', f'key functions {sorted(forms)}', 'the right rows are bucketed and the left rows probed with different key functions / options: equal key values do not meet', node=func)
+    _report_sim(chk, 'C19.J', 'join_data', 'every left row paired with the right rows whose serialised key is equal, in order; right fields colliding with ANY left field (of any left row) are renamed '
+                'name2, name3 ... to a name used by no left field, no right field and no other renamed field, so no left field is overwritten; unmatched left rows kept (dropped with the flag, as the '
+                'test-suite pins); input tables unmodified')
 
 
 def check_filter_and_field(chk):
@@ -144,84 +63,36 @@ def check_filter_and_field(chk):
         chk.bad('C19.F', mod, 'add_calculated_field', 'field loop', 'the calculated field must be stored under the given name on every row of the input', node=g)
 
 
-def check_aggregate(chk):
+def _data_sim(chk):
+    from .. import libsim
+    if not hasattr(chk, '_data_sim'):
+        chk._data_sim = libsim.run_data_functions(chk.repo, 'C19.A')
+    return chk._data_sim
+
+
+def _report_sim(chk, rule, fname, what):
+    counts, problems = _data_sim(chk)
     mod = chk.repo.module('data')
-    func = mod.func('aggregate_data', 'C19.A')
-    sch = schema_mod.load(mod, 'AGGREGATION_TYPES', 'C19.A')
-    enum = set(sch.enums.get('AggregationFunction', []))
-    chains = [n for n in walk_no_nested(func) if isinstance(n, ast.If) and any("== 'count'" in norm(t) for t, _b in if_chain(n) if t is not None)]
-    chains = sorted(chains, key=lambda n: n.lineno)[:1]
-    if len(chains) != 1:
-        raise Unrecognised('C19.A', 'aggregation function dispatch not found', mod.rel)
-    handled = {}
-    els = None
-    for test, body in if_chain(chains[0]):
-        if test is None:
-            els = body
-        elif isinstance(test, ast.Compare) and const_str(test.comparators[0]) is not None and isinstance(test.ops[0], ast.Eq):
-            handled[const_str(test.comparators[0])] = body
-        elif 'len(' in norm(test):
-            handled['<empty>'] = body
-    names = set(handled) - {'<empty>'}
-    missing = enum - names
-    if els is not None and len(missing) == 1:
-        handled[next(iter(missing))] = els
-        names |= missing
-    if names == enum:
-        chk.ok('C19.A', f'aggregation functions handled = schema enum {sorted(enum)}')
-    else:
-        chk.bad('C19.A', mod, 'aggregate_data', f'handled {sorted(names)} vs enum {sorted(enum)}', 'the aggregation functions handled differ from the AggregationFunction enum', node=chains[0])
-    reducers = {'count': ['len'], 'max': ['max'], 'min': ['min'], 'sum': ['sum'], 'stddev': ['statistics.pstdev'], 'average': ['statistics.mean', 'statistics.fmean']}
-    for fn, want in reducers.items():
-        body = handled.get(fn)
-        if not body:
+    mine = [p for p in problems if p[0] == fname]
+    if not mine:
+        chk.ok(rule, f'{fname}: {counts.get(fname, 0)} abstract calls over 5 tables (duplicate / null / missing / mixed-type / look-alike keys) - {what} (E6l)', count=counts.get(fname, 1))
+        return
+    seen = set()
+    for _f, kind, msg in mine:
+        if kind in seen:
             continue
-        calls = [call_name(c) for s in body for c in ast.walk(s) if isinstance(c, ast.Call)]
-        if len(body) == 1 and isinstance(body[0], ast.Assign) and calls and calls[0] in want:
-            chk.ok('C19.A', f"'{fn}' -> {calls[0]}(measure values)")
-        else:
-            chk.bad('C19.A', mod, 'aggregate_data', f"'{fn}' -> {calls[:1]}", f"aggregation function '{fn}' must be computed with {want[0]} over the non-null measure values; found {calls[:2]}", node=body[0])
-    # null skip
-    appends = [n for n in walk_no_nested(func) if isinstance(n, ast.Call) and isinstance(n.func, ast.Attribute) and n.func.attr == 'append' and 'aggregate_row' in norm(n.func.value)]
-    ok = False
-    for a in appends:
-        par = a
-        while par is not None and not isinstance(par, ast.If):
-            par = getattr(par, '_parent', None)
-        if par is not None and norm(par.test) == f'{norm(a.args[0])} is not None':
-            ok = True
-    if ok:
-        chk.ok('C19.A', 'null measure values are skipped before reduction (`value is not None`)')
-    else:
-        chk.bad('C19.A', mod, 'aggregate_data', 'null filter', 'null measure values must be excluded with an `is not None` test (a truthiness test would also drop 0 and false)', node=func)
-    # partition key
-    keys = [n for n in walk_no_nested(func) if isinstance(n, ast.Assign) and isinstance(n.targets[0], ast.Name) and n.targets[0].id.endswith('_key')]
-    if len(keys) == 1 and any(isinstance(c, ast.Call) and call_name(c) == 'value_json' for c in ast.walk(keys[0].value)):
-        chk.ok('C19.A', f'rows are partitioned by the serialised category values: {norm(keys[0])[:80]}')
-    else:
-        chk.bad('C19.A', mod, 'aggregate_data', norm(keys[0])[:100] if keys else 'no key',
-                'rows must be partitioned by the value_json serialisation of the category values: a host tuple/hash key merges 1, 1.0 and true (and fails on arrays/objects)', node=keys[0] if keys else func)
+        seen.add(kind)
+        chk.bad(rule, mod, fname, f'{fname} [{kind}]: {msg[:100]}', f'abstract execution: {msg} ({sum(1 for p in mine if p[1] == kind)} of {counts.get(fname, 0)} calls deviate this way)', node=mod.funcs.get(fname))
+
+
+def check_aggregate(chk):
+    _report_sim(chk, 'C19.A', 'aggregate_data', 'rows are partitioned by the serialised category values in first-appearance order; count / sum / min / max / average / stddev are computed over the '
+                'non-null measure values (null when there are none), under the measure name or field; the input is not modified')
 
 
 def check_sort_top(chk):
     mod = chk.repo.module('data')
-    f = mod.func('top_data', 'C19.S')
-    data, count = f.args.args[0].arg, f.args.args[1].arg
-    order_lists = [n.targets[0].id for n in walk_no_nested(f) if isinstance(n, ast.Assign) and isinstance(n.targets[0], ast.Name) and isinstance(n.value, ast.List) and not n.value.elts]
-    loops = [n for n in walk_no_nested(f) if isinstance(n, ast.For)]
-    first = [lp for lp in loops if norm(lp.iter) == data]
-    second = [lp for lp in loops if isinstance(lp.iter, ast.Name) and lp.iter.id in order_lists]
-    rng = [lp for lp in loops if isinstance(lp.iter, ast.Call) and call_name(lp.iter) == 'range']
-    ok_order = bool(first) and bool(second) and any(isinstance(s, ast.If) and ' not in ' in norm(s.test) and any(f'{second[0].iter.id}.append(' in norm(x) for x in s.body) for s in first[0].body)
-    if ok_order:
-        chk.ok('C19.S', 'dataTop: categories are emitted in first-appearance order')
-    else:
-        chk.bad('C19.S', mod, 'top_data', 'category order', 'top must keep the categories in order of first appearance', node=f)
-    if len(rng) == 1 and norm(rng[0].iter) in (f'range(min(int({count}), len({norm(rng[0].iter.args[0].args[1].args[0]) if False else "category_key_rows"})))',) or \
-            (len(rng) == 1 and norm(rng[0].iter).startswith(f'range(min(int({count}), len(')):
-        chk.ok('C19.S', f'dataTop: the first int({count}) rows of each category ({norm(rng[0].iter)})')
-    else:
-        chk.bad('C19.S', mod, 'top_data', norm(rng[0].iter)[:80] if rng else 'no range', f'top must keep rows 0 .. min(int({count}), len(rows)) - 1 of each category', node=f)
+    _report_sim(chk, 'C19.S', 'top_data', 'the first int(count) rows of each category in first-appearance order, counts given as int or float, categories by serialised key')
     g = mod.func('sort_data', 'C19.S')
     calls = [n for n in walk_no_nested(g) if isinstance(n, ast.Call) and isinstance(n.func, ast.Attribute) and n.func.attr == 'sort']
     if len(calls) == 1 and not any(k.arg == 'reverse' for k in calls[0].keywords) and 'cmp_to_key' in norm(calls[0]) and '_sort_data_fn' in norm(calls[0]):
@@ -271,10 +142,10 @@ def check_csv_inference(chk):
 
 
 def run(chk):
-    chk.rule('C19.J', 'join never overwrites a left field; same key function on both sides', floor=4)
+    chk.rule('C19.J', 'join: pairs by serialised key; collision renaming never overwrites a left field (abstract execution vs the relational meaning)', floor=50)
     chk.rule('C19.F', 'filter keeps truthy rows in order; calculated field set on every row', floor=2)
-    chk.rule('C19.A', 'aggregate: enum coverage, reducer table, null skip, serialised partition key', floor=8)
-    chk.rule('C19.S', 'sort comparator/stability; top order and first n rows', floor=3)
+    chk.rule('C19.A', 'aggregate: partition by serialised category values, six reducers over non-null values (abstract execution vs the relational meaning)', floor=100)
+    chk.rule('C19.S', 'sort comparator/stability; top: first n rows per category in first-appearance order (abstract execution)', floor=50)
     chk.rule('C19.V', 'CSV inference tests parse results with is None; order of inference', floor=3)
     chk.assumptions += ['host list.sort is stable; statistics.pstdev/mean, sum, min, max are the reducers; expression evaluation is C03']
     chk.guard('C19.J', check_join, chk)
